@@ -305,7 +305,7 @@ def bn_to_pgmpy(case, cls=None):
     for u, v in edges_in:
         m.add_edge(names[u], names[v])
     past = None
-    if not case.get("keep_insertion_order") and cpds_in and prng.random() < .25:
+    if not case.get("keep_insertion_order") and cpds_in and prng.random() < .35:
         # the network has a past: one variable first had another CPD (same shape), the model was validated and looked at, and
         # the CPD was then replaced through add_cpds.  Only the current CPDs are part of the network.
         cand = [c for c in cpds_in if len(c["table"]) > 1]
